@@ -4,11 +4,11 @@
 From Coq Require Import ZArith List.
 From OV Require Import Base.Num Base.NumZ Base.Py Model.SchedState Gen.Sched Proofs.SchedP.
 Definition blankZ : ss Z := mkss 0%Z 0%Z 0%Z 0%Z (fun _ => 0%Z) 0%Z.
-Definition after (k : nat) (init g : Z) : result (ss Z) :=
-  bind (noise_exp_init blankZ init g (-1)) (fun '(s, _) => steps (noise_step noise_exp_get) k s).
+Definition ctor (init g : Z) : ss Z := sstate (noise_exp_init blankZ init g (-1)).
+Definition after (k : nat) (init g : Z) : result (ss Z) := steps (noise_step noise_exp_get) k (ctor init g).
 Definition resumed (k : nat) (init g : Z) : result (ss Z) :=
-  bind (after k init g) (fun s => bind (noise_exp_init blankZ init g (-1)) (fun '(fresh, _) =>
-    steps (noise_step noise_exp_get) 1 (noise_load_state_dict fresh (noise_state_dict s)))).
+  bind (after k init g) (fun s =>
+    steps (noise_step noise_exp_get) 1 (noise_load_state_dict (ctor init g) (noise_state_dict s))).
 Theorem C17_restore_refuted :
   exists k init g, (match resumed k init g, after (S k) init g with
                     | Ok a, Ok b => negb (Z.eqb (f_oval a) (f_oval b)) | _, _ => false end) = true.
